@@ -148,7 +148,7 @@ func runC12(r *vk.Run) {
 	}
 	modes := []string{"overlap", "overlap", "disjoint", "empty-right", "empty-left"}
 
-	r.Phase("pointwise", r.N(200, 3000), func(c *vk.Case) {
+	r.Phase("pointwise", r.N(200, 30000), func(c *vk.Case) {
 		rng := c.Rng
 		for _, cb := range combos {
 			mode := vk.Pick(rng, modes)
